@@ -687,6 +687,17 @@ def fmt(parts):
             merged.append(p)
     if all(is_const(p, str) for p in merged):
         return Const("".join(p.v for p in merged))
+    if len(merged) == 1 and not (isinstance(merged[0], Op) and merged[0].op == "fv"):
+        return merged[0]
+    if not any(isinstance(p, Op) and p.op == "fv" for p in merged):
+        # pure concatenation of string terms: same canonical form as a + b + c
+        flat = []
+        for p in merged:
+            if isinstance(p, Op) and p.op == "concat":
+                flat.extend(p.args)
+            else:
+                flat.append(p)
+        return Op("concat", *flat)
     return Op("fmt", *merged)
 
 
@@ -695,6 +706,15 @@ def fv(value, spec="", conv=""):
     if isinstance(spec, V) and not is_const(spec, str):
         return Op("fv", value, spec, Const(conv))
     sp = spec.v if isinstance(spec, V) else spec
+    if sp == "c" and conv == "":
+        # '%c' / '{:c}' of an integer is chr()
+        if is_int(value):
+            try:
+                return Const(chr(value.v))
+            except Exception:
+                pass
+        if not (isinstance(value, Const) and isinstance(value.v, str)):
+            return Op("chr", value)
     if isinstance(value, Const) and not isinstance(value.v, (tuple, list, dict)):
         try:
             x = value.v
